@@ -556,6 +556,49 @@ pub fn no_decision_p2() -> Tree {
     )
 }
 
+/// a root (chance with unequal weights, or player two) above two nodes of one player-one infoset A,
+/// whose first action leads to a node of a second player-one infoset C: C's nodes lie below
+/// different nodes of the same previous own infoset, reached with unequal probability
+pub fn two_level_own(chance_root: bool) -> Tree {
+    use crate::tree::{p, t};
+    let branch = |base: f64| {
+        p(0, "A", vec![("a", p(0, "C", vec![("u", t(base)), ("d", t(1.0 - 2.0 * base))])), ("b", t(0.25 * base - 0.5))])
+    };
+    if chance_root {
+        Tree::C(None, vec![(1.0, branch(2.0)), (3.0, branch(-1.0))])
+    } else {
+        p(1, "z", vec![("l", branch(2.0)), ("r", branch(-1.0))])
+    }
+}
+
+/// chance leads to player one's infoset A (2 actions) or B (3 actions); every action leads to a node
+/// of ONE player-two infoset X: the number of X nodes visited in a pass depends on the chance draw
+pub fn varying_visits() -> Tree {
+    use crate::tree::t;
+    let x = |base: f64| Tree::P(1, "X".to_string(), vec![("l".to_string(), t(base)), ("r".to_string(), t(1.0 - base))]);
+    Tree::C(
+        None,
+        vec![
+            (1.0, Tree::P(0, "A".to_string(), vec![("a0".to_string(), x(2.0)), ("a1".to_string(), x(-1.0))])),
+            (1.0, Tree::P(0, "B".to_string(), vec![("b0".to_string(), x(0.5)), ("b1".to_string(), x(-2.0)), ("b2".to_string(), x(3.0))])),
+        ],
+    )
+}
+
+/// a ladder: at each level the mover (player one throughout) either stops at one of `actions - 1`
+/// terminals or climbs on; own reach under the uniform strategy is actions^-level
+pub fn ladder(levels: usize, actions: usize) -> Tree {
+    fn rec(level: usize, levels: usize, actions: usize) -> Tree {
+        if level == levels {
+            return Tree::T(level as f64);
+        }
+        let mut acts: Vec<(String, Tree)> = (0..actions - 1).map(|i| (format!("s{}", i), Tree::T(((level * 3 + i) % 7) as f64 - 3.0))).collect();
+        acts.push(("up".to_string(), rec(level + 1, levels, actions)));
+        Tree::P(0, format!("level{}", level), acts)
+    }
+    rec(0, levels, actions)
+}
+
 /// The curated families, each member with a name
 pub fn families() -> Vec<(String, Tree)> {
     let mut res = Vec::new();
@@ -573,5 +616,8 @@ pub fn families() -> Vec<(String, Tree)> {
     res.push(("dominated_action".to_string(), dominated_action()));
     res.push(("kuhn".to_string(), kuhn()));
     res.push(("no_decision_p2".to_string(), no_decision_p2()));
+    res.push(("two_level_own_chance".to_string(), two_level_own(true)));
+    res.push(("two_level_own_p2".to_string(), two_level_own(false)));
+    res.push(("varying_visits".to_string(), varying_visits()));
     res
 }
